@@ -29,6 +29,13 @@ Proof. exact rejects_second_equals. Qed.
 Theorem C19_empty_string_rejected : parse [] = PErr EMissingPath.
 Proof. exact empty_string_rejected. Qed.
 
+(* acceptance is sound for every string whatsoever (not only rendered ones): an accepted specification has a non-empty
+   path and no empty key; the double-'=' error is decided by the character scan alone *)
+Theorem C19_accepted_is_wellformed : forall s p l, parse s = POk p l -> p <> [] /\ Forall (fun kv => fst kv <> []) l.
+Proof. exact accepted_is_wellformed. Qed.
+Theorem C19_double_eq_iff_scan_fails : forall s, parse s = PErr EDoubleEq <-> parse_raw s = None.
+Proof. exact double_eq_iff_scan_fails. Qed.
+
 (* non-vacuity *)
 Example C19_instance :
   parse (ps_render [32; 47; 103; 44; 120] [([107; 61], [32; 118; 32]); ([97], [])])
